@@ -10,7 +10,6 @@ import (
 	"github.com/projecteru2/core/store"
 	"github.com/projecteru2/core/types"
 
-	"github.com/alphadose/haxmap"
 	"github.com/google/uuid"
 )
 
@@ -22,8 +21,11 @@ const dispatchGrace = 100 * time.Millisecond
 // Helium .
 type Helium struct {
 	sync.Once
-	store     store.Store
-	subs      *haxmap.Map[uint32, entry]
+	store store.Store
+	// subscribers are added by the callers of Subscribe while the dispatcher iterates and removes:
+	// a plain map under a mutex (the lock-free map used before lost entries inserted during that)
+	subsMux   sync.Mutex
+	subs      map[uint32]entry
 	interval  time.Duration
 	unsubChan chan uint32
 }
@@ -39,7 +41,7 @@ func New(ctx context.Context, config types.GRPCConfig, store store.Store) *Heliu
 	h := &Helium{
 		interval:  config.ServiceDiscoveryPushInterval,
 		store:     store,
-		subs:      haxmap.New[uint32, entry](),
+		subs:      map[uint32]entry{},
 		unsubChan: make(chan uint32),
 	}
 	if h.interval < time.Second {
@@ -57,11 +59,13 @@ func (h *Helium) Subscribe(ctx context.Context) (uuid.UUID, <-chan types.Service
 	key := ID.ID()
 	subCtx, cancel := context.WithCancel(ctx)
 	ch := make(chan types.ServiceStatus)
-	h.subs.Set(key, entry{
+	h.subsMux.Lock()
+	h.subs[key] = entry{
 		ch:     ch,
 		ctx:    subCtx,
 		cancel: cancel,
-	})
+	}
+	h.subsMux.Unlock()
 	return ID, ch
 }
 
@@ -69,7 +73,10 @@ func (h *Helium) Subscribe(ctx context.Context) (uuid.UUID, <-chan types.Service
 func (h *Helium) Unsubscribe(ID uuid.UUID) {
 	// the dispatcher may be blocked offering a status to this very subscriber, which
 	// does not read any more: wake it up, otherwise it never gets to the unsubscription
-	if entry, ok := h.subs.Get(ID.ID()); ok {
+	h.subsMux.Lock()
+	entry, ok := h.subs[ID.ID()]
+	h.subsMux.Unlock()
+	if ok {
 		entry.cancel()
 	}
 	h.unsubChan <- ID.ID()
@@ -103,9 +110,12 @@ func (h *Helium) start(ctx context.Context) {
 				}
 
 			case ID := <-h.unsubChan:
-				if entry, ok := h.subs.Get(ID); ok {
+				h.subsMux.Lock()
+				entry, ok := h.subs[ID]
+				delete(h.subs, ID)
+				h.subsMux.Unlock()
+				if ok {
 					entry.cancel()
-					h.subs.Del(ID)
 					close(entry.ch)
 				}
 
@@ -137,8 +147,13 @@ func (h *Helium) dispatch(ctx context.Context, status types.ServiceStatus) {
 			return
 		}
 	}
-	h.subs.ForEach(func(k uint32, v entry) bool {
+	h.subsMux.Lock()
+	subs := make(map[uint32]entry, len(h.subs))
+	for k, v := range h.subs {
+		subs[k] = v
+	}
+	h.subsMux.Unlock()
+	for k, v := range subs {
 		f(k, v)
-		return true
-	})
+	}
 }
